@@ -120,6 +120,16 @@ def step (st : St) (ws : List String) : St × String :=
     match bytesOfHex h with
     | some _ => (.file { data := [], pos := 0 } true, "ok")
     | none => (st, "bad-op")
+  -- the same two objects reached through a "file://" URI: read-only ("r", SeekStream::CreateForRead) and
+  -- write-only ("w", Stream::Create); the harness issues only reads / only writes on them
+  | .closed, ["open", "filer", h] =>
+    match bytesOfHex h with
+    | some bs => (.file { data := bs, pos := 0 } true, "ok")
+    | none => (st, "bad-op")
+  | .closed, ["open", "filewo", h] =>
+    match bytesOfHex h with
+    | some _ => (.file { data := [], pos := 0 } true, "ok")
+    | none => (st, "bad-op")
   | .closed, ["open", "ostream", n] =>
     match n.toNat? with
     | some k => (.os { ob := OBuf.create k, sink := { data := [], cur := 0 }, idx := 0,
